@@ -36,8 +36,9 @@ def compare_one(task):
         # every non-terminal of A (user-visible names) keeps its own language in B
         defined_b = set(l for l, _ in gb.bnf)
         nts = [x for x in ga.user_nts if x in defined_b]
-    st, wit, dt = P.lang_diff(ga.bnf, ga.start, gb.bnf, gb.start, vocab, task["N"], timeout_ms=task.get("timeout_ms", 120000), also_nts=nts)
-    r = dict(task, status=st, solver_s=round(dt, 3), wall_s=round(time.time() - t0, 3), terminals=len(vocab),
+    cross = {"tag": "g_%s" % abs(hash(task["grammar"]))} if task.get("crosscheck") else None
+    st, wit, dt = P.lang_diff(ga.bnf, ga.start, gb.bnf, gb.start, vocab, task["N"], timeout_ms=task.get("timeout_ms", 120000), also_nts=nts, cross=cross)
+    r = dict(task, status=st, second_opinion=({k: v for k, v in cross.items() if k != "tag"} if cross else None), solver_s=round(dt, 3), wall_s=round(time.time() - t0, 3), terminals=len(vocab),
              prods_a=len(ga.bnf), prods_b=len(gb.bnf), nts_compared=1 + len(nts))
     if st == "sat":
         sa, sb = ga.start, gb.start
@@ -115,7 +116,8 @@ def lang_main(prop, pick, structural, label_a, label_b, functions, explanation, 
         pr = pick(a)
         if pr is None:
             continue
-        tasks.append({"grammar": a["grammar"], "a": pr[0], "b": pr[1], "N": N, "label": "%s vs %s" % (label_a, label_b), "per_nt": per_nt})
+        tasks.append({"grammar": a["grammar"], "a": pr[0], "b": pr[1], "N": N, "label": "%s vs %s" % (label_a, label_b), "per_nt": per_nt,
+                      "crosscheck": a["grammar"].startswith("/verif/grammars/")})
     if extra_tasks:
         tasks += extra_tasks(N)
     res = run_pairs(tasks)
@@ -123,9 +125,15 @@ def lang_main(prop, pick, structural, label_a, label_b, functions, explanation, 
     samples, disagreements, programs = [], 0, 0
     tsolver = 0.0
     queries = 0
+    crosschecked = 0
     for r in res:
         tsolver += r.get("solver_s", 0)
         queries += r.get("nts_compared", 1)
+        so = r.get("second_opinion")
+        if so:
+            crosschecked += 1
+            if so.get("agree") is False:
+                run.inconc("%s: solvers disagree: %s" % (r["grammar"], so))
         if r["status"] == "unsat":
             programs += 1
             for i in structural(r["a"], r["b"]):
@@ -156,6 +164,7 @@ def lang_main(prop, pick, structural, label_a, label_b, functions, explanation, 
         "programs": programs, "disagreements_checked": disagreements, "samples": samples or [{"note": "no grammar validated"}],
         "bound_N_tokens": N, "grammars_in_corpus": len(files), "grammar_pairs": len(tasks), "skipped": skipped[:40], "skipped_count": len(skipped),
         "queries_discharged": queries, "solver": "z3 %s" % z3.get_version_string(), "solver_time_s": round(tsolver, 2),
+        "queries_cross_checked_with_cvc5_and_z3_4_8_12": crosschecked,
         "encoder_selfcheck_grammars": info if ok else 0,
         "functions_in_loop": functions,
         "explanation": explanation,
